@@ -354,7 +354,7 @@ func c17Fresh(r *Report, p *Prog, arch string) {
 	for _, b := range fn.Blocks {
 		for _, in := range b.Instrs {
 			if ret, isRet := in.(*ssa.Return); isRet {
-				v := ret.Results[0]
+				v := retVals(ret)[0]
 				if mi, isMI := v.(*ssa.MakeInterface); isMI {
 					v = mi.X
 				}
